@@ -795,6 +795,10 @@ impl<'a> GeneratorState<'a> {
             Expr::Integer(i) => Ok(ExprType::Immediate(!*i)),
             _ => { 
                 let left = self.generate_expr(expr, pos, false, false)?;
+                if let ExprType::Immediate(v) = left {
+                    // A folded constant operand: complement all of it, like a literal
+                    return Ok(ExprType::Immediate(!v));
+                }
                 let right = ExprType::Immediate(0xff);
                 self.generate_arithm(&left, &Operation::Xor(false), &right, pos, false)
             },
